@@ -7,7 +7,7 @@ set_option linter.unusedVariables false
 
 /-- from a state in a sector-safe region for the constant input `x`: the run never panics, and eventually (for ever)
     the state is settled and both `get()` and the returned output are within `4·2^32/k + 4` of `x` -/
-theorem lp2_settle_core (m : Mode) {k a b x Vmax R : Int} (h : Lp2Butter k a b) (hS : Lp2Safe2 a b x Vmax R)
+theorem lp2_settle_core' (m : Mode) {k a b x Vmax R : Int} (h : Lp2Butter k a b) (hS : Lp2Safe2 a b x Vmax R)
     (st : Int × Int) (hI : Lp2Inv2 a b x Vmax R st) :
     (∀ n, lp2Iter m x a (-b) n st
         = .ok ((lp2Seq x a (-b) n st).1, (lp2Seq x a (-b) n st).2, (lp2Seq x a (-b) n st).1 / 4294967296) ∧
@@ -15,7 +15,7 @@ theorem lp2_settle_core (m : Mode) {k a b x Vmax R : Int} (h : Lp2Butter k a b) 
     ∃ N : Nat, ∀ n, N ≤ n → ∃ s0 s1 s0' s1' y,
       lp2Iter m x a (-b) n st = .ok (s0, s1, s0 / 4294967296) ∧
       lp2Update m s0 s1 x a (-b) = .ok (s0', s1', y) ∧
-      Lp2Settled a b x (s0, s1) ∧
+      Lp2Tight a b x (lp2Rk k a) (s0, s1) ∧
       k * (|s0 / 4294967296 - x| - 4) ≤ 4 * 4294967296 ∧
       k * (|y - x| - 4) ≤ 4 * 4294967296 := by
   have hA := h.adm
@@ -38,12 +38,28 @@ theorem lp2_settle_core (m : Mode) {k a b x Vmax R : Int} (h : Lp2Butter k a b) 
     obtain ⟨hstep, -⟩ := lp2_inv2_step m (lp2Seq x a (-b) (N1 + N2 + j) st) hA hS hIn
     have hrun := lp2_seq_run2 m hA hS (N1 + N2 + j) st hI
     generalize lp2Seq x a (-b) (N1 + N2 + j) st = sn at *
-    refine ⟨_, _, _, _, _, hrun, hstep, ht.1, lp2_tight_out h sn.1 ht.2.1 ht.2.2, ?_⟩
+    refine ⟨_, _, _, _, _, hrun, hstep, ht, lp2_tight_out h sn.1 ht.2.1 ht.2.2, ?_⟩
     · -- the mid-point error is the mean of two tight errors
       obtain ⟨-, -, -, -, -, -, hmid⟩ := lp2_err_rec x a (-b) sn
       have hE : 2 * lp2Eb a b x (lp2Mid x a (-b) sn) = lp2Eb a b x sn.1 + lp2Eb a b x (lp2Next x a (-b) sn).1 := by
         unfold lp2Eb; linear_combination (2 * a) * hmid
       exact lp2_tight_out h (lp2Mid x a (-b) sn) (by have := ht.2.1; have := ht'.2.1; omega)
         (by have := ht.2.2; have := ht'.2.2; omega)
+
+theorem lp2_settle_core (m : Mode) {k a b x Vmax R : Int} (h : Lp2Butter k a b) (hS : Lp2Safe2 a b x Vmax R)
+    (st : Int × Int) (hI : Lp2Inv2 a b x Vmax R st) :
+    (∀ n, lp2Iter m x a (-b) n st
+        = .ok ((lp2Seq x a (-b) n st).1, (lp2Seq x a (-b) n st).2, (lp2Seq x a (-b) n st).1 / 4294967296) ∧
+      Lp2Inv2 a b x Vmax R (lp2Seq x a (-b) n st)) ∧
+    ∃ N : Nat, ∀ n, N ≤ n → ∃ s0 s1 s0' s1' y,
+      lp2Iter m x a (-b) n st = .ok (s0, s1, s0 / 4294967296) ∧
+      lp2Update m s0 s1 x a (-b) = .ok (s0', s1', y) ∧
+      Lp2Settled a b x (s0, s1) ∧
+      k * (|s0 / 4294967296 - x| - 4) ≤ 4 * 4294967296 ∧
+      k * (|y - x| - 4) ≤ 4 * 4294967296 := by
+  obtain ⟨h1, N, hN⟩ := lp2_settle_core' m h hS st hI
+  refine ⟨h1, N, fun n hn => ?_⟩
+  obtain ⟨s0, s1, s0', s1', y, e1, e2, ht, b1, b2⟩ := hN n hn
+  exact ⟨s0, s1, s0', s1', y, e1, e2, ht.1, b1, b2⟩
 
 end Idsp
